@@ -210,6 +210,17 @@ class Engine:
             self.hset(st, "$elems", r, e)
         return SV("list", r, elem)
 
+    def mk_array(self, j, body, base):
+        """The array  lambda j. body(j).  In grounded (refutation) mode it is
+        spelled out as stores over the bounded index range, which keeps the
+        query free of lambdas (they make model finding slow)."""
+        if self.ground is None:
+            return z3.Lambda([j], body)
+        arr = base
+        for i in range(0, self.ground + 3):
+            arr = z3.Store(arr, i, z3.substitute(body, (j, z3.IntVal(i))))
+        return arr
+
     def wrap(self, kind, z, x=None):
         return SV(kind, z, x)
 
